@@ -48,11 +48,60 @@ def strayCZ : List LogEntry → Option String
       else strayCZ (b :: rest)
     | _ => strayCZ (b :: rest)
 
+/-- counter specification of a state -/
+def ctrSpec (ms : List Machine) (mi st : Nat) : Option (Option Counter × Option Counter) :=
+  match ms[mi]? with
+  | some m => match m.states[st]? with
+    | some s => some (s.counterA, s.counterB)
+    | none => none
+  | none => none
+
+/-- operand of one counter update: 1, the saturating cast of the clamped sample, or the other
+    counter's old value; `raws` are the raw samples logged right before the update (A first) -/
+def operandOf (c : Counter) (other : Nat) (raws : List F64) : Nat × List F64 :=
+  if c.copy then (other, raws) else
+  match c.dist with
+  | none => (1, raws)
+  | some d => match raws with
+    | r :: rest => (Fp.toU64 (d.clamp (match d.constUniform with | some lo => lo | none => r)), rest)
+    | [] => (0, [])
+
+/-- every update equals the specified saturating operation on the specified operand; the state is
+    tracked from the snapshot before the call and the `sampled` entries of the log -/
+def checkValues (ms : List Machine) (st : Nat → Nat) (recent : List F64) : List LogEntry → Option String
+  | [] => none
+  | .sampled mi _ next :: rest =>
+    let st' := if next != STATE_SIGNAL then (fun j => if j == mi then next else st j) else st
+    checkValues ms st' [] rest
+  | .distRaw b :: rest => checkValues ms st (recent ++ [b]) rest
+  | .counter mi ao an bo bn :: rest =>
+    match ctrSpec ms mi (st mi) with
+    | none => some s!"machine {mi}: counter update in unknown state {st mi}"
+    | some (ca, cb) =>
+      -- the raw samples belonging to this update are the last ones logged (A then B)
+      let need := (match ca with | some c => if !c.copy && c.dist.isSome then 1 else 0 | none => 0) +
+                  (match cb with | some c => if !c.copy && c.dist.isSome then 1 else 0 | none => 0)
+      let raws := recent.drop (recent.length - need)
+      let (expA, raws') := match ca with
+        | none => (ao, raws)
+        | some c => let (v, r) := operandOf c bo raws; (applyOp c.operation ao v, r)
+      let expB := match cb with
+        | none => bo
+        | some c => let (v, _) := operandOf c ao raws'; applyOp c.operation bo v
+      if an != expA then some s!"machine {mi}: counter A {ao} -> {an}, specified {expA}"
+      else if bn != expB then some s!"machine {mi}: counter B {bo} -> {bn}, specified {expB}"
+      else checkValues ms st [] rest
+  | .limit .. :: rest => checkValues ms st [] rest
+  | _ :: rest => checkValues ms st recent rest
+
 def monitor (t : FwTrace) : Option String :=
-  let rec go (i : Nat) : List CallRec → Option String
+  let rec go (i : Nat) (prev : Snap) : List CallRec → Option String
     | [] => none
     | c :: cs =>
       if c.res != .ok then none else
+      match checkValues t.machines (fun j => match prev.rts[j]? with | some r => r.state | none => 0) [] c.log with
+      | some msg => some s!"call {i}: {msg}"
+      | none =>
       match checkLog { a := [], b := [] } c.log with
       | some msg => some s!"call {i}: {msg}"
       | none =>
@@ -63,7 +112,7 @@ def monitor (t : FwTrace) : Option String :=
         | none =>
           match strayCZ c.log with
           | some msg => some s!"call {i}: {msg}"
-          | none => go (i + 1) cs
-  go 1 t.calls
+          | none => go (i + 1) c.snap cs
+  go 1 t.snap0 t.calls
 
 end Mb.C08
